@@ -79,6 +79,23 @@ def structural(res, what, sig, fit, rfi, one, check_model=True):
             res.violation(sig + ':model-history', '%s: beads_model(x) gives %s before and %s after the standard curve has been evaluated' % (what, bm_first.tolist()[:3], bm_again.tolist()[:3]), one)
             return False
     params = p_ret
+    # the curve evaluated on whole-number fluorescence values held in integer types (raw channel numbers) equals the curve on the same values as floats
+    xi = [1, 2, 7, 123, 10000, 60000]
+    want_i = np.asarray(std_crv(np.array(xi, dtype=float)), dtype=float)
+    for typ in (np.int64, np.int32, np.uint16, 'list', 'scalar'):
+        try:
+            if typ == 'list':
+                got_i = np.asarray(std_crv(list(xi)), dtype=float)
+            elif typ == 'scalar':
+                got_i = np.array([float(std_crv(v)) for v in xi])
+            else:
+                got_i = np.asarray(std_crv(np.array(xi, dtype=typ)), dtype=float)
+        except Exception as e:
+            res.violation(sig + ':integer-input-raises', '%s: std_crv on %s integers raised %s: %s' % (what, getattr(typ, '__name__', typ), type(e).__name__, e), one)
+            return False
+        if not np.allclose(got_i, want_i, rtol=1e-12, atol=0):
+            res.violation(sig + ':integer-input', '%s: std_crv(%r as %s) = %s, as floats %s' % (what, xi, getattr(typ, '__name__', typ), got_i.tolist()[:3], want_i.tolist()[:3]), one)
+            return False
     neg = np.asarray(std_crv(-xs), dtype=float)
     if not np.all(np.isfinite(pos)) or not np.array_equal(neg, -pos):
         res.violation(sig + ':not-odd', '%s: std_crv(-x) != -std_crv(x): %s vs %s' % (what, neg.tolist()[:3], pos.tolist()[:3]), one)
@@ -122,8 +139,12 @@ def run_case(c):
                     if c.get('only') and c['only'] != [auto, lname]:
                         continue
                     what = 'fit(slope %r, intercept %r, autofluorescence %r, ladder %s)' % (m, b, auto, lname)
+                    # manufacturer ladders are whole numbers: given as floats, as an integer array or as a list of ints (same fit)
+                    form = ('float', 'int-array', 'int-list')[(AUTOS.index(auto) + len(lname)) % 3]
+                    mef_arg = mefs if form == 'float' else (np.array(mef, dtype=np.int64) if form == 'int-array' else [int(v) for v in mef])
+                    what += ' [MEF values as %s]' % form
                     try:
-                        fit = fitf(rfi, mefs)
+                        fit = fitf(rfi, mef_arg)
                     except Exception as e:
                         res.violation('lattice:raises:%s' % type(e).__name__, '%s raised %s: %s' % (what, type(e).__name__, e), one)
                         continue
